@@ -15,7 +15,7 @@
 //	p(id, x)     logs "id", yields x              (Probe{ID, Ret})
 //	t(id, [..])  NOT logged; the n-th call with this id yields element n mod len (Seq)
 //	v(x...)      logs the canonical rendering of its arguments, yields nil (Show)
-//	boom(id)     logs "boom<id>" and then fails with a runtime error (Boom)
+//	boom(id)     logs "boom<id>" and then panics with the error "boom <id>" (Boom)
 //	mkch(x...)   yields a closed buffered channel holding x... (ChanOf)
 //	nilfn        a variable holding a nil Go function value (HostNilFunc)
 package ir
@@ -217,6 +217,12 @@ type (
 	}
 	// Defer is `defer call`; Call must be a Call, Probe, Show or Boom.
 	Defer struct{ Call Expr }
+	// Close is `close(x)`; every channel of the IR (ChanOf) is already
+	// closed, so it fails with Go's "close of closed channel".
+	Close struct {
+		X   Expr
+		Tag int
+	}
 	// Block is a plain nested block; anko has no such statement, it is
 	// rendered as `if true { ... }`.
 	Block struct{ Body []Stmt }
@@ -242,6 +248,7 @@ func (Try) isStmt()      {}
 func (Throw) isStmt()    {}
 func (Defer) isStmt()    {}
 func (Block) isStmt()    {}
+func (Close) isStmt()    {}
 func (Module) isStmt()   {}
 
 // ---- small constructors (generators read better with them) ----
